@@ -105,14 +105,17 @@ def predict_apply(
             continue
         num, mx, ok = row
         fired[(cap['callback'], num, mx)] += 1
-        if cap['throw'] and shape == 'pair':
-            may = True  # the left inverse of a pair solves for another right-hand side than the table's
+        if cap['throw'] and (not exact or shape in ('pair', 'nested')):
+            # the left inverse of a pair, an inverse nested inside another one, or an inverse inside a
+            # reduced composite may solve for another right-hand side than the table's: with throw=True
+            # it may raise, whatever the table says
+            may = True
         if cap['throw'] and not ok:
-            if shape in ('nested', 'pair'):
-                # the right-hand side an inner / left inverse sees is not the table's: may, not must
-                may = True
+            if exact and shape not in ('nested', 'pair') and num >= mx:
+                must = True  # ran out of steps on exactly the table's problem: robust
             else:
-                must = True
+                # a breakdown-type failure (not a step count) may depend on rounding, e.g. eager vs jit
+                may = True
     return {
         'fired': fired,
         'raise': 'must' if must else ('may' if may else 'no'),
@@ -130,8 +133,24 @@ def _max_steps(solver_tag: str) -> int:
     raise ValueError(solver_tag)
 
 
-def judge_apply(pred: dict, raised: str | None, fired: list, fault_fired: bool, shape: str, caps: list[dict]) -> str | None:
-    """Compares an observed apply outcome with its prediction; returns a complaint or None."""
+def _match_counts(obs: Counter, pred: Counter, tol: int, subset: bool) -> bool:
+    """Multiset match of (tag, num_steps, max_steps) records, num_steps within `tol`."""
+    left = list(pred.elements())
+    for t, n, m in sorted(obs.elements()):
+        hit = next((p for p in left if p[0] == t and p[2] == m and abs(p[1] - n) <= tol), None)
+        if hit is None:
+            return False
+        left.remove(hit)
+    return subset or not left
+
+
+def judge_apply(pred: dict, raised: str | None, fired: list, fault_fired: bool, shape: str, caps: list[dict], mode: str = 'eager') -> str | None:
+    """Compares an observed apply outcome with its prediction; returns a complaint or None.
+
+    Step counts must equal the direct-lineax table's for eager applies; under jit / filter_jit the
+    whole apply is one XLA computation and may round differently, so one step of slack is allowed there
+    (what distinguishes configurations is five steps or more, or max_steps, which is exact)."""
+    tol = 0 if mode == 'eager' else 1
     obs = Counter((t, n, m) for t, n, m in fired)
     obs_tags = {t for t, _, _ in fired}
     if not obs_tags <= pred['tags']:
@@ -153,11 +172,11 @@ def judge_apply(pred: dict, raised: str | None, fired: list, fault_fired: bool, 
     if raised is not None and expect_raise == 'no':
         return f'apply raised {raised} although the captured settings cannot raise'
     if raised is not None or fault_fired:
-        if pred['strict'] and not all(obs[k] <= pred['fired'][k] for k in obs):
+        if pred['strict'] and not _match_counts(obs, pred['fired'], tol, subset=True):
             return f'callbacks {sorted(obs.elements())} not among predicted {sorted(pred["fired"].elements())}'
         return None
     if pred['strict']:
-        if obs != pred['fired']:
+        if not _match_counts(obs, pred['fired'], tol, subset=False):
             return f'callbacks {sorted(obs.elements())} != predicted {sorted(pred["fired"].elements())}'
     else:
         if shape == 'nested':
@@ -308,7 +327,7 @@ def check_history(events: list, table: dict[str, list], thread_inherits: bool = 
             caps = ref.captured[d['h']]
             meta = ref.handle_meta[d['h']]
             pred = predict_apply(meta['shape'], meta['ops'], caps, table, meta['exact'])
-            complaint = judge_apply(pred, d['raised'], d['fired'], d['fault_fired'], meta['shape'], caps)
+            complaint = judge_apply(pred, d['raised'], d['fired'], d['fault_fired'], meta['shape'], caps, d.get('mode', 'eager'))
             if complaint:
                 return bad('U', seq, {'site': 'apply', 'why': complaint})
             if d['caps_after'] is not None and d['caps_after'] != caps:
